@@ -41,6 +41,10 @@ CHECKS = {
          "deviation-bounded exhaustive exploration of environment answers (transport read sizes, buffer sizes, write splits, write faults, transport end at every offset) by re-execution against a two-queue reference",
          "Four scenarios are re-executed from scratch for every perturbation with 0 and 1 deviation (a fragment boundary at every byte offset, a Write split at every offset, a transport end of both kinds at every inbound offset, each transport write failing/short) and a stated family with 2 deviations; plus every permitted record length x content type in both directions. On every execution the bytes moved must be a prefix of the reference stream, complete records must not be withheld, and errors must be reported after the data and stay.",
          "reference stream uses tlsref's reconstruction; quick tier samples offsets away from record/header boundaries (every 17th/23rd/29th), thorough takes every offset", "§3 C07"),
+ "C08": ("fault_enumeration", "E1 enum (worker processes)",
+         "grammar-bounded exhaustive enumeration of hostile inputs on both sides, executed in memory-capped single-threaded worker processes with hang watchdog; panic/progress/retained-heap oracles",
+         "Every sequence of up to 2 (3) of 47 well-/ill-formed variants of the interpreted extensions in outer and sealed inner hellos, every length field set to {0,-1,+1,max} singly and pairwise, every message cut, every first-record type, and record/ServerHello/second-hello mutations in both directions after accepted and passed-through hellos are executed on the real Conn; no panic, no zero-progress return, bounded retained heap, no hang. The deadline clause (NewConn returns by its context deadline when the client stalls at any byte) is decided by the scheduler-based check registered with C10's engine.",
+         "inputs are grammar-bounded, not arbitrary byte noise; memory measured as retained heap after the call with harness-held bytes subtracted", "§3 C08"),
 }
 
 NOT_YET = {}
